@@ -173,7 +173,7 @@ def _padding_worker(args):
         try:
             wire = bytes(rec.compose())
         except Exception as e:  # noqa
-            acc.violation('packet:compose_raises:%s' % type(e).__name__, 'packet with %d-byte payload cannot be composed'
+            acc.violation('packet:compose_raises:%s' % core.ename(e), 'packet with %d-byte payload cannot be composed'
                           % L, w)
             continue
         payload = message_bytes(msg)
@@ -193,7 +193,7 @@ def _padding_worker(args):
             if canon.dump(back, eq=True) != canon.dump(rec, eq=True):
                 acc.violation('packet:roundtrip', 'packet does not parse back to the same message', w)
         except Exception as e:  # noqa
-            acc.violation('packet:parse_raises:%s' % type(e).__name__, 'composed packet (payload %d) rejected' % L, w)
+            acc.violation('packet:parse_raises:%s' % core.ename(e), 'composed packet (payload %d) rejected' % L, w)
         acc.state(core.h64('pad', variant, L))
     if lo <= 13 < hi:
         acc.sample({'kind': 'padding', 'variant': variant, 'payload_length': 13}, 1)
@@ -230,7 +230,7 @@ def _keyparam_worker(args):
                 o = SshHostKeyRSA(SshHostKeyAlgorithm.SSH_RSA, PublicKey.from_params(PublicKeyParamsRsa(modulus=n, public_exponent=e)))
                 got = bytes(o.compose())
             except Exception as ex:  # noqa
-                acc.violation('rsa:compose_raises:%s' % type(ex).__name__, 'RSA key (n of %d bits) cannot be composed'
+                acc.violation('rsa:compose_raises:%s' % core.ename(ex), 'RSA key (n of %d bits) cannot be composed'
                               % n.bit_length(), w)
                 got = None
             if got is not None and got != blob:
@@ -242,7 +242,7 @@ def _keyparam_worker(args):
                 if p.modulus != n or p.public_exponent != e:
                     acc.violation('rsa:parse_differs:bits%%8=%d' % (n.bit_length() % 8), 'parsed RSA parameters differ', w)
             except Exception as ex:  # noqa
-                acc.violation('rsa:parse_raises:%s' % type(ex).__name__, 'RFC encoding of an RSA key (n of %d bits) '
+                acc.violation('rsa:parse_raises:%s' % core.ename(ex), 'RFC encoding of an RSA key (n of %d bits) '
                               'rejected' % n.bit_length(), w)
         if i % 7 == 0:
             acc.counters['transitions'] = acc.counters.get('transitions', 0) + 2
@@ -258,7 +258,7 @@ def _keyparam_worker(args):
                 if (back.prime, back.order, back.generator, back.public_key_value) != (p_, q_, g_, y_):
                     acc.violation('dss:parse_differs', 'parsed DSS parameters differ', w)
             except Exception as ex:  # noqa
-                acc.violation('dss:raises:%s' % type(ex).__name__, 'DSS key with p of %d bits: %s' % (p_.bit_length(), ex), w)
+                acc.violation('dss:raises:%s' % core.ename(ex), 'DSS key with p of %d bits: %s' % (p_.bit_length(), ex), w)
         acc.state(core.h64('rsa', n))
     return acc.result()
 
@@ -298,8 +298,8 @@ def _kexinit_worker(args):
             try:
                 o = ss.SshKeyExchangeInit.parse_exact_size(wire)
             except Exception as e:  # noqa
-                acc.violation('kexinit:parse_raises:%s:list%s' % (type(e).__name__, 'lang' if li >= 8 else ''),
-                              'RFC 4253 s7.1 KEXINIT rejected (%s)' % type(e).__name__, w)
+                acc.violation('kexinit:parse_raises:%s:list%s' % (core.ename(e), 'lang' if li >= 8 else ''),
+                              'RFC 4253 s7.1 KEXINIT rejected (%s)' % core.ename(e), w)
                 continue
             got = []
             for n in KEXINIT_LISTS:
@@ -316,7 +316,7 @@ def _kexinit_worker(args):
                 if back != wire:
                     acc.violation('kexinit:compose_differs', 'KEXINIT re-composes to different bytes', w)
             except Exception as e:  # noqa
-                acc.violation('kexinit:compose_raises:%s' % type(e).__name__, 'parsed KEXINIT cannot be composed', w)
+                acc.violation('kexinit:compose_raises:%s' % core.ename(e), 'parsed KEXINIT cannot be composed', w)
             acc.state(core.h64('kexinit', repr(lists)))
     if li == 0 and lj is None:
         acc.sample({'kind': 'kexinit', 'lists': base_lists}, 1)
@@ -374,7 +374,7 @@ def check_against_reference(acc, cls, o, w):
         if canon.dump(back, eq=True) != canon.dump(o, eq=True):
             acc.violation('parse_of_reference:%s' % fam, 'parse of the reference encoding differs from the object', w)
     except Exception as e:  # noqa
-        acc.violation('parse_of_reference_raises:%s:%s:%s' % (fam, _where(o, exp, 0), type(e).__name__),
+        acc.violation('parse_of_reference_raises:%s:%s:%s' % (fam, _where(o, exp, 0), core.ename(e)),
                       'reference encoding rejected', w)
 
 
@@ -473,7 +473,7 @@ def check_inplace_histories(acc, cls, o, w):
         try:
             got = bytes(b.compose())
         except Exception as e:  # noqa
-            acc.violation('inplace:cert:%s:compose_raises:%s' % (holder, type(e).__name__),
+            acc.violation('inplace:cert:%s:compose_raises:%s' % (holder, core.ename(e)),
                           'certificate edited in place (%s) cannot be composed' % tag, dict(w, tag=tag))
             continue
         acc.state(core.h64('cert-inplace', w['cls'], w['variant'], tag))
@@ -516,7 +516,7 @@ def _ecdsa_worker(_):
         try:
             o = SshHostKeyECDSA.parse_exact_size(blob)
         except doc as e:
-            acc.violation('ecdsa:rejected:%s' % type(e).__name__, 'RFC 5656 blob %s / %s rejected' % (name, ident), w)
+            acc.violation('ecdsa:rejected:%s' % core.ename(e), 'RFC 5656 blob %s / %s rejected' % (name, ident), w)
             continue
         acc.state(core.h64('ecdsa', i))
         if o.host_key_algorithm.value.code != name:
@@ -525,7 +525,7 @@ def _ecdsa_worker(_):
         try:
             got = bytes(o.compose())
         except Exception as e:  # noqa
-            acc.violation('ecdsa:compose_raises:%s' % type(e).__name__, 'parsed ECDSA key %s / %s cannot be composed'
+            acc.violation('ecdsa:compose_raises:%s' % core.ename(e), 'parsed ECDSA key %s / %s cannot be composed'
                           % (name, ident), w)
             continue
         if got != blob:
@@ -576,7 +576,7 @@ def _banner_worker(_):
                     try:
                         o = SshProtocolMessage.parse_exact_size(wire)
                     except Exception as e:  # noqa
-                        acc.violation('banner:parse_raises:%s' % type(e).__name__, 'RFC 4253 s4.2 banner rejected: %r' % wire, w)
+                        acc.violation('banner:parse_raises:%s' % core.ename(e), 'RFC 4253 s4.2 banner rejected: %r' % wire, w)
                         continue
                     got = {'proto': '%d.%d' % (int(o.protocol_version.major), o.protocol_version.minor),
                            'software': bytes(o.software_version.compose()).decode('ascii'), 'comment': o.comment}
@@ -651,7 +651,7 @@ def replay(ctx, w):
             if bytes(o.compose()) != wire:
                 acc.violation('kexinit:compose_differs', 'differs', w)
         except Exception as e:  # noqa
-            acc.violation('kexinit:parse_raises:%s:list' % type(e).__name__, 'rejected', w)
+            acc.violation('kexinit:parse_raises:%s:list' % core.ename(e), 'rejected', w)
         res = acc.result()
     elif k == 'banner':
         res = _banner_worker(0)
